@@ -1,14 +1,207 @@
 //! C11 — joining lays inputs contiguously along the axis; splitting is its inverse. Value protocol with tags.
+//!
+//! Every case is executed on `Array<i64>` tag arrays (the answer compared with the model), on their `u8` and `f64` (tag 0 = -0.0,
+//! bit-wise) images — the comparison of lib.rs `cross_type_arr` / `cross_type_list`, i.e. what `on_types_arr!` / `on_types_list!`
+//! do, extended to operations whose source is a LIST of arrays — and, for a share of the small cases, on `i8`, `bool`, `String`,
+//! `f32` (-0.0).  `append` and the six splitting methods have an `impl … for Result<Array<T>, ArrayError>`: they are called on
+//! BOTH receivers every time.  The i64 call is repeated (same call twice).  Any divergence fails the case.
 use arrharness::*;
+use std::cell::RefCell;
+
+// ---------------------------------------------------------------- cross-type / both-receiver plumbing (local copy, lib.rs is shared)
+
+thread_local! { static NOTE: RefCell<Option<String>> = const { RefCell::new(None) }; }
+fn note(s: String) { NOTE.with(|n| { let mut n = n.borrow_mut(); if n.is_none() { *n = Some(s); } }); }
+fn take_note() -> Option<String> { NOTE.with(|n| n.borrow_mut().take()) }
+
+/// tag -> element of every swept type (i64 / u8 / f64 agree with lib.rs `tag_u8`, `tag_f64z`)
+trait Tagged: ArrayElement {
+    const NAME: &'static str;
+    fn of(t: i64) -> Self;
+    fn same(a: &Self, b: &Self) -> bool { a == b }
+}
+impl Tagged for i64 { const NAME: &'static str = "i64"; fn of(t: i64) -> Self { t } }
+impl Tagged for u8 { const NAME: &'static str = "u8"; fn of(t: i64) -> Self { tag_u8(t) } }
+impl Tagged for i8 { const NAME: &'static str = "i8"; fn of(t: i64) -> Self { tag_i8(t) } }
+impl Tagged for bool { const NAME: &'static str = "bool"; fn of(t: i64) -> Self { t % 2 != 0 } }
+impl Tagged for String { const NAME: &'static str = "String"; fn of(t: i64) -> Self { format!("s{t}") } }
+impl Tagged for f64 { const NAME: &'static str = "f64"; fn of(t: i64) -> Self { tag_f64z(t) } fn same(a: &Self, b: &Self) -> bool { a.to_bits() == b.to_bits() } }
+impl Tagged for f32 { const NAME: &'static str = "f32"; fn of(t: i64) -> Self { if t == 0 { -0.0 } else { t as f32 } } fn same(a: &Self, b: &Self) -> bool { a.to_bits() == b.to_bits() } }
+
+fn arr_of<T: Tagged>(s: &str) -> Array<T> { let (sh, e) = parse_arr_raw(s); Array::new(e.into_iter().map(T::of).collect(), sh).expect("harness: array literal") }
+
+fn same_res<T: Tagged>(a: &Result<Array<T>, ArrayError>, b: &Result<Array<T>, ArrayError>) -> bool {
+    match (a, b) {
+        (Ok(a), Ok(b)) => a.get_shape().unwrap() == b.get_shape().unwrap() && { let (x, y) = (a.get_elements().unwrap(), b.get_elements().unwrap()); x.len() == y.len() && x.iter().zip(y.iter()).all(|(p, q)| T::same(p, q)) },
+        (Err(a), Err(b)) => err_name(a) == err_name(b),
+        _ => false,
+    }
+}
+fn brief<T: Tagged>(r: &Result<Array<T>, ArrayError>) -> String { truncate(&res_arr(r), 200) }
+
+/// plain receiver, then the same call on `Ok(array)`, then (i64 only) the plain call again; the plain answer is returned,
+/// a divergence is left in NOTE (and fails the case)
+fn rx<T: Tagged>(plain: impl Fn() -> Result<Array<T>, ArrayError>, chained: impl Fn() -> Result<Array<T>, ArrayError>) -> Result<Array<T>, ArrayError> {
+    let p = plain();
+    if let Ok(a) = &p { if !consistent(a) { note(format!("INCONSISTENT result on {}: {}", T::NAME, brief(&p))); } }
+    match std::panic::catch_unwind(std::panic::AssertUnwindSafe(&chained)) {
+        Ok(c) => if !same_res(&p, &c) { note(format!("RECEIVER-DIVERGENCE ({}) the call on Ok(array) gives `{}`, the plain call `{}`", T::NAME, brief(&c), brief(&p))); },
+        Err(_) => note(format!("RECEIVER-DIVERGENCE ({}) the call on Ok(array) panics, the plain call gives `{}`", T::NAME, brief(&p))),
+    }
+    if T::NAME == "i64" { let p2 = plain(); if !same_res(&p, &p2) { note(format!("REPEAT-DIVERGENCE the same call twice: `{}` then `{}`", brief(&p), brief(&p2))); } }
+    p
+}
+
+fn extra_arr<T: Tagged>(ri: &Result<Array<i64>, ArrayError>, rt: std::thread::Result<Result<Array<T>, ArrayError>>) -> Option<String> {
+    let rt = match rt { Ok(r) => r, Err(_) => return Some(format!("the {} run panics", T::NAME)) };
+    if ri.is_ok() != rt.is_ok() { return Some(format!("element type {} gives a different outcome class ({})", T::NAME, brief(&rt))); }
+    if let (Ok(i), Ok(t)) = (ri, &rt) {
+        let (ei, et) = (i.get_elements().unwrap(), t.get_elements().unwrap());
+        if i.get_shape().unwrap() != t.get_shape().unwrap() || ei.len() != et.len() { return Some(format!("{} result has another shape: {}", T::NAME, brief(&rt))); }
+        for p in 0..ei.len() { if !T::same(&et[p], &T::of(ei[p])) { return Some(format!("{} run differs at flat position {p}: {:?} instead of {:?}", T::NAME, et[p], T::of(ei[p]))); } }
+    }
+    None
+}
+
+macro_rules! at_type { ($T:ident, $ty:ty, $body:expr) => {{ #[allow(dead_code, non_camel_case_types)] type $T = $ty; std::panic::catch_unwind(std::panic::AssertUnwindSafe(|| $body)) }} }
+/// `$body` (an expression in the element type alias `$T`, giving `Result<Array<$T>, ArrayError>`) on i64 / u8 / f64(-0.0) — the
+/// comparison of lib.rs `cross_type_arr`, i.e. what `on_types_arr!` does — and, when `$more`, on i8 / bool / String / f32 too
+macro_rules! sweep_arr { ($more:expr, |$T:ident| $body:expr) => {{
+    let _ = take_note();
+    let mut obs = match (at_type!($T, i64, $body), at_type!($T, u8, $body), at_type!($T, f64, $body)) {
+        (Ok(ri), Ok(ru), Ok(rf)) => {
+            let mut d = cross_type_arr(&ri, &ru, &rf);
+            if d.is_none() && $more {
+                d = extra_arr::<i8>(&ri, at_type!($T, i8, $body));
+                if d.is_none() { d = extra_arr::<bool>(&ri, at_type!($T, bool, $body)); }
+                if d.is_none() { d = extra_arr::<String>(&ri, at_type!($T, String, $body)); }
+                if d.is_none() { d = extra_arr::<f32>(&ri, at_type!($T, f32, $body)); }
+            }
+            match d { None => res_arr(&ri), Some(d) => format!("TYPE-DIVERGENCE {d}; i64 run: {}", truncate(&res_arr(&ri), 300)) }
+        }
+        (Err(_), Err(_), Err(_)) => "panic".to_string(),
+        (ri, ru, rf) => format!("TYPE-DIVERGENCE panic only for some element types (i64 {}, u8 {}, f64 {})", ri.is_err(), ru.is_err(), rf.is_err()),
+    };
+    if let Some(n) = take_note() { obs = format!("{n}; answer: {}", truncate(&obs, 300)); }
+    obs
+}} }
+
+fn list_of<T: Tagged>(s: &str) -> Vec<Array<T>> { if s == "-" { vec![] } else { s.split(';').map(arr_of::<T>).collect() } }
+fn same_list<T: Tagged>(a: &Result<Vec<Array<T>>, ArrayError>, b: &Result<Vec<Array<T>>, ArrayError>) -> bool {
+    match (a, b) {
+        (Ok(a), Ok(b)) => a.len() == b.len() && a.iter().zip(b.iter()).all(|(x, y)| same_res(&Ok(x.clone()), &Ok(y.clone()))),
+        (Err(a), Err(b)) => err_name(a) == err_name(b),
+        _ => false,
+    }
+}
+fn brief_list<T: Tagged>(r: &Result<Vec<Array<T>>, ArrayError>) -> String { truncate(&res_arr_list(r), 200) }
+/// the splitting methods: plain receiver, `Ok(array)` receiver, (i64) the plain call again
+fn rx_list<T: Tagged>(plain: impl Fn() -> Result<Vec<Array<T>>, ArrayError>, chained: impl Fn() -> Result<Vec<Array<T>>, ArrayError>) -> Result<Vec<Array<T>>, ArrayError> {
+    let p = plain();
+    if let Ok(v) = &p { if v.iter().any(|a| !consistent(a)) { note(format!("INCONSISTENT piece on {}: {}", T::NAME, brief_list(&p))); } }
+    match std::panic::catch_unwind(std::panic::AssertUnwindSafe(&chained)) {
+        Ok(c) => if !same_list(&p, &c) { note(format!("RECEIVER-DIVERGENCE ({}) the call on Ok(array) gives `{}`, the plain call `{}`", T::NAME, brief_list(&c), brief_list(&p))); },
+        Err(_) => note(format!("RECEIVER-DIVERGENCE ({}) the call on Ok(array) panics, the plain call gives `{}`", T::NAME, brief_list(&p))),
+    }
+    if T::NAME == "i64" { let p2 = plain(); if !same_list(&p, &p2) { note(format!("REPEAT-DIVERGENCE the same call twice: `{}` then `{}`", brief_list(&p), brief_list(&p2))); } }
+    p
+}
+/// the associated functions of ArrayJoining (no Result receiver exists): C01 monitor + (i64) the same call twice
+fn rep<T: Tagged>(plain: impl Fn() -> Result<Array<T>, ArrayError>) -> Result<Array<T>, ArrayError> {
+    let p = plain();
+    if let Ok(a) = &p { if !consistent(a) { note(format!("INCONSISTENT result on {}: {}", T::NAME, brief(&p))); } }
+    if T::NAME == "i64" { let p2 = plain(); if !same_res(&p, &p2) { note(format!("REPEAT-DIVERGENCE the same call twice: `{}` then `{}`", brief(&p), brief(&p2))); } }
+    p
+}
+fn extra_list<T: Tagged>(ri: &Result<Vec<Array<i64>>, ArrayError>, rt: std::thread::Result<Result<Vec<Array<T>>, ArrayError>>) -> Option<String> {
+    let rt = match rt { Ok(r) => r, Err(_) => return Some(format!("the {} run panics", T::NAME)) };
+    if ri.is_ok() != rt.is_ok() { return Some(format!("element type {} gives a different outcome class ({})", T::NAME, brief_list(&rt))); }
+    if let (Ok(i), Ok(t)) = (ri, &rt) {
+        if i.len() != t.len() { return Some(format!("element type {} gives {} pieces instead of {}", T::NAME, t.len(), i.len())); }
+        for k in 0..i.len() { if let Some(d) = extra_arr::<T>(&Ok(i[k].clone()), Ok(Ok(t[k].clone()))) { return Some(format!("piece {k}: {d}")); } }
+    }
+    None
+}
+/// `sweep_arr!` for bodies giving `Result<Vec<Array<$T>>, ArrayError>` (lib.rs `cross_type_list`, what `on_types_list!` does)
+macro_rules! sweep_list { ($more:expr, |$T:ident| $body:expr) => {{
+    let _ = take_note();
+    let mut obs = match (at_type!($T, i64, $body), at_type!($T, u8, $body), at_type!($T, f64, $body)) {
+        (Ok(ri), Ok(ru), Ok(rf)) => {
+            let mut d = cross_type_list(&ri, &ru, &rf);
+            if d.is_none() && $more {
+                d = extra_list::<i8>(&ri, at_type!($T, i8, $body));
+                if d.is_none() { d = extra_list::<bool>(&ri, at_type!($T, bool, $body)); }
+                if d.is_none() { d = extra_list::<String>(&ri, at_type!($T, String, $body)); }
+                if d.is_none() { d = extra_list::<f32>(&ri, at_type!($T, f32, $body)); }
+            }
+            match d { None => res_arr_list(&ri), Some(d) => format!("TYPE-DIVERGENCE {d}; i64 run: {}", truncate(&res_arr_list(&ri), 300)) }
+        }
+        (Err(_), Err(_), Err(_)) => "panic".to_string(),
+        (ri, ru, rf) => format!("TYPE-DIVERGENCE panic only for some element types (i64 {}, u8 {}, f64 {})", ri.is_err(), ru.is_err(), rf.is_err()),
+    };
+    if let Some(n) = take_note() { obs = format!("{n}; answer: {}", truncate(&obs, 300)); }
+    obs
+}} }
+
+// ---------------------------------------------------------------- generator
 
 fn list(items: &[(Vec<usize>, i64)]) -> String { items.iter().map(|(s, o)| tag_off(s, *o)).collect::<Vec<_>>().join(";") }
+
+/// shapes of the size streams: lib `big_shapes()` + shapes at / just below / above the 256, 1024 and 4096 element marks in several
+/// ranks + long trailing runs + unit axes next to long ones
+fn c11_big_shapes(thorough: bool) -> Vec<Vec<usize>> {
+    let mut v = big_shapes();
+    let more: Vec<Vec<usize>> = vec![vec![16, 16], vec![15, 17], vec![32, 32], vec![33, 31], vec![63, 65], vec![16, 20, 16], vec![8, 8, 8, 8],
+        vec![2, 1, 8, 8], vec![9, 8, 10], vec![1, 300], vec![300, 1], vec![3, 1, 64], vec![13, 10], vec![10, 13], vec![7, 11, 5], vec![2, 2, 2, 2, 2, 2, 2, 2]];
+    for s in more { if !v.contains(&s) { v.push(s); } }
+    if thorough { for s in [vec![64, 64], vec![64, 65], vec![2, 3, 700], vec![2, 2050], vec![4, 4, 4, 4, 4, 4], vec![1, 4096], vec![4097, 1], vec![65, 64], vec![71, 70], vec![20, 16, 16], vec![16, 16, 20], vec![3, 1400], vec![12, 12, 12, 3], vec![5, 30, 30], vec![2, 2, 2, 2, 2, 2, 2, 2, 2, 2, 2, 2, 2]] { if !v.contains(&s) { v.push(s); } } }
+    v
+}
+
+/// a part count that does NOT divide `d` (uneven split)
+fn uneven(d: usize) -> usize { for p in [3usize, 4, 5, 7, 2, 6] { if d % p != 0 { return p; } } 11 }
+
+/// array text with MANY zero tags (f64 image -0.0, u8 image 0, bool false): one tag in three kept; `j` shifts the pattern and the tags
+fn zeros_arr(s: &[usize], j: i64) -> String {
+    let n: usize = s.iter().product();
+    format!("{}:{}", show_list(s), show_list(&(0..n as i64).map(|i| if (i * 7 + 1 + j) % 3 == 0 { i + 1000 * j } else { 0 }).collect::<Vec<_>>()))
+}
+
+/// level 0: below 1000 elements (every part count), 1: below 2000 (reduced), 2: from 2000 on (one uneven split per axis, round trip,
+/// parts beyond the length; the rest only in the thorough tier) — the model driver needs ~0.4 s per case at 5000 elements
+fn gen_split_big(a: &str, s: &[usize], thorough: bool, out: &mut dyn FnMut(String)) {
+    let nd = s.len(); let n: usize = s.iter().product();
+    let level = if n < 1000 { 0 } else if n < 2000 { 1 } else { 2 };
+    for ax in 0..nd {
+        let d = s[ax];
+        if level == 2 { out(format!("array_split {a} {} {ax}", uneven(d))); continue; }
+        let mut ps: Vec<usize> = if level == 0 { vec![2, 3, 4, 5, 7, d.saturating_sub(1), d, d + 1, 2 * d] } else { vec![2, uneven(d), d, d + 1] }; ps.retain(|&p| p >= 1); ps.sort(); ps.dedup();
+        for p in ps { out(format!("array_split {a} {p} {ax}")); out(format!("split {a} {p} {ax}")); }
+        if level == 0 { for p in [2, 3, uneven(d), d + 1] { out(format!("split_concat {a} {p} {ax}")); } } else { out(format!("split_concat {a} {} {ax}", uneven(d))); }
+        out(format!("split_axis {a} {ax}"));
+    }
+    if level == 2 {
+        out(format!("split_concat {a} {} {}", uneven(s[nd / 2]), nd / 2)); out(format!("array_split {a} {} {}", s[nd - 1] + 1, nd - 1));
+        if thorough {
+            out(format!("split {a} 2 0")); out(format!("split {a} {} {}", s[nd - 1], nd - 1)); out(format!("split_axis {a} {}", nd - 1)); out(format!("array_split {a} {} none", uneven(s[0])));
+            out(format!("hsplit {a} 2")); out(format!("vsplit {a} 2")); out(format!("dsplit {a} 2"));
+            for ax in 0..nd { out(format!("split_concat {a} {} {ax}", uneven(s[ax]))); out(format!("array_split {a} {} {ax}", 2 * s[ax] + 1)); }
+        }
+    } else {
+        out(format!("array_split {a} {} none", uneven(s[0]))); out(format!("split {a} 2 none")); out(format!("array_split {a} 2 {nd}")); out(format!("array_split {a} 0 0"));
+        for p in [2, 3, 4] { out(format!("hsplit {a} {p}")); out(format!("vsplit {a} {p}")); out(format!("dsplit {a} {p}")); }
+    }
+}
 
 fn gen(tier: &str, seed: u64, out: &mut dyn FnMut(String)) {
     let thorough = tier == "thorough";
     let mut rng = Rng::new(seed);
     for l in ["array_split i2,4 2 1", "array_split i2,5 3 1", "hstack i2,2;i2,1+1000", "dstack i2,2,1;i2,2,2+1000", "stack i2,3;i2,3+1000 2", "array_split i3,2,2 2 0",
               // off-axis lengths differ but have the same product (permuted / regrouped): must be refused
-              "append i2,3,2 i1,2,3+1000 0", "concatenate i2,4,1;i2,2,2+1000 0"] { out(l.to_string()); }
+              "append i2,3,2 i1,2,3+1000 0", "concatenate i2,4,1;i2,2,2+1000 0",
+              // round-2 corpus: long trailing runs with unequal lengths on an inner joining axis; -0.0 through column_stack; uneven split of >= 4096 elements
+              "append i2,1,8,8 i2,2,8,8+1000 1", "concatenate i2,1,64;i2,3,64+1000 1", "concatenate i2,2,64;i2,2,64+1000;i2,2,64+2000 1", "column_stack 2,2:0,1,0,3;2:0,0",
+              "array_split i16,20,16 3 1", "array_split i70,70 3 0", "split_concat i16,20,16 3 1"] { out(l.to_string()); }
     let mut all = shapes(1, 4, 1, 3);
     all.extend(vec![vec![4], vec![5], vec![7], vec![2, 4], vec![5, 2], vec![2, 2, 5]]);
     for s in &all {
@@ -81,7 +274,7 @@ fn gen(tier: &str, seed: u64, out: &mut dyn FnMut(String)) {
                   "column_stack i2,3;i3,2+1000", "column_stack i6;i2,3+1000", "column_stack i2,3;i6+1000", "column_stack i4,1;i2,2+1000", "column_stack i2;i2,2+1000;i4+2000", "column_stack i2,2;i1,4+1000"] { out(l.to_string()); }
     }
     // zero-size arrays (an empty axis on or off the joining axis): joining, stacking, the conveniences, splitting
-    for s in [vec![0usize], vec![2, 0], vec![0, 2], vec![0, 0], vec![2, 0, 3], vec![2, 3, 0], vec![0, 2, 2]] {
+    for s in [vec![0usize], vec![2, 0], vec![0, 2], vec![0, 0], vec![2, 0, 3], vec![2, 3, 0], vec![0, 2, 2], vec![1, 0], vec![0, 1], vec![0, 0, 2], vec![3, 0, 2], vec![2, 2, 0, 2]] {
         let nd = s.len(); let a = tag(&s);
         for ax in 0..nd {
             for m in 0..3usize { let mut t = s.clone(); t[ax] = m;
@@ -108,31 +301,134 @@ fn gen(tier: &str, seed: u64, out: &mut dyn FnMut(String)) {
             _ => { let k = 1 + rng.below(4); let same: Vec<(Vec<usize>, i64)> = (0..k).map(|j| (s.clone(), 1000 * j as i64)).collect(); out(format!("stack {} {ax}", list(&same))); }
         }
     }
+    // ---- robustness streams (FRAMEWORK.md)
+    // 1a. sizes, splitting: axis lengths 7..17 in every position, element counts beyond 256 / 1024 / 4096 (the marks themselves too)
+    for s in c11_big_shapes(thorough) { gen_split_big(&tag(&s), &s, thorough, out); }
+    // 1b. sizes, joining: the big array with 1-2 partners of length 1..3 along every axis, equal shapes for stack and the conveniences
+    for s in c11_big_shapes(thorough) {
+        let n: usize = s.iter().product(); let nd = s.len(); let a = tag(&s);
+        if n >= 2000 {
+            if nd >= 2 { let mut t = s.clone(); t[1] = 1; out(format!("append {} {a} 1", tag_off(&t, 10000))); } else { out(format!("append {a} {} 0", tag_off(&[3], 10000))); }
+            if thorough {
+                let mut t = s.clone(); t[0] = 1; out(format!("concatenate {a};{} 0", tag_off(&t, 10000)));
+                let mut t = s.clone(); t[nd - 1] = 2; out(format!("append {a} {} {}", tag_off(&t, 10000), nd - 1));
+                out(format!("stack {a};{} {}", tag_off(&s, 10000), nd - 1));
+            }
+            continue;
+        }
+        for ax in 0..nd {
+            let k = 2 + rng.below(2);
+            let items: Vec<(Vec<usize>, i64)> = (0..k).map(|j| { let mut t = s.clone(); if j > 0 { t[ax] = 1 + rng.below(3); } (t, 10000 * j as i64) }).collect();
+            out(format!("concatenate {} {ax}", list(&items)));
+            out(format!("append {} {} {ax}", tag_off(&items[1].0, 10000), tag(&items[0].0)));
+            if n >= 1000 && !thorough { continue; }
+            out(format!("append {} {} {ax}", tag(&items[0].0), tag_off(&items[1].0, 10000)));
+            if n <= 700 { out(format!("stack {a};{};{} {ax}", tag_off(&s, 10000), tag_off(&s, 20000))); } else { out(format!("stack {a};{} {ax}", tag_off(&s, 10000))); }
+            let ops: &[&str] = match ax { 0 => &["vstack", "row_stack"], 1 => &["hstack", "column_stack"], 2 => &["dstack"], _ => &[] };
+            for op in ops { if *op == "column_stack" && nd > 2 { continue; } out(format!("{op} {}", list(&items))); }
+        }
+        for op in ["vstack", "hstack", "dstack", "column_stack", "row_stack"] { if n <= 1300 { out(format!("{op} {a};{}", tag_off(&s, 10000))); } }
+        out(format!("concatenate {a};{} none", tag_off(&s, 10000))); out(format!("append {a} {} none", tag_off(&[3], 10000)));
+    }
+    // 1c. sizes, joining along an axis followed by a LONG contiguous run (trailing product 63..1030; outer extent 1..7): every
+    //     combination of equal / unequal / zero lengths on the joining axis, 2 and 3 inputs, through append (both orders),
+    //     concatenate, stack and the convenience of that axis
+    {
+        let mut templates: Vec<(Vec<usize>, usize)> = vec![
+            (vec![2, 0, 8, 8], 1), (vec![2, 0, 64], 1), (vec![2, 0, 63], 1), (vec![2, 0, 65], 1), (vec![3, 0, 70], 1), (vec![2, 2, 0, 100], 2), (vec![0, 128], 0), (vec![0, 8, 8], 0),
+            (vec![2, 0, 7, 9], 1), (vec![2, 0, 9, 8], 1), (vec![3, 0, 256], 1), (vec![1, 0, 64], 1), (vec![2, 0, 4, 4, 4], 1), (vec![2, 3, 0, 64], 2), (vec![2, 0, 1030], 1),
+            (vec![4, 0, 33, 2], 1), (vec![2, 0, 16, 17], 1), (vec![7, 0, 16], 1), (vec![2, 1, 0, 300], 2), (vec![3, 2, 2, 0, 64], 3), (vec![17, 0, 9], 1), (vec![2, 0, 31], 1), (vec![2, 0, 32], 1)];
+        if thorough { templates.extend(vec![(vec![7, 0, 17, 16], 1), (vec![2, 0, 4100], 1), (vec![3, 0, 5, 5, 5], 1), (vec![2, 0, 128], 1), (vec![2, 0, 127], 1), (vec![2, 0, 255], 1), (vec![2, 0, 256], 1), (vec![2, 0, 257], 1), (vec![9, 8, 0, 70], 2)]); }
+        let combos: Vec<Vec<usize>> = vec![vec![1, 2], vec![2, 1], vec![3, 1], vec![1, 3], vec![2, 2], vec![1, 1, 1], vec![2, 1, 3], vec![0, 2], vec![2, 0], vec![1, 0, 2], vec![1, 1], vec![5, 7]];
+        let cap = if thorough { 12000 } else { 4200 };
+        for (tpl, ax) in &templates {
+            let unit: usize = tpl.iter().enumerate().map(|(i, &d)| if i == *ax { 1 } else { d }).product();
+            for c in &combos {
+                if unit * c.iter().sum::<usize>() > cap { continue; }
+                let items: Vec<(Vec<usize>, i64)> = c.iter().enumerate().map(|(j, &m)| { let mut t = tpl.clone(); t[*ax] = m; (t, 10000 * j as i64) }).collect();
+                let total = unit * c.iter().sum::<usize>();
+                out(format!("concatenate {} {ax}", list(&items)));
+                out(format!("append {} {} {ax}", tag_off(&items[0].0, 0), tag_off(&items[1].0, 10000)));
+                if total > 1200 && !thorough { continue; }
+                out(format!("append {} {} {ax}", tag_off(&items[1].0, 10000), tag_off(&items[0].0, 0)));
+                if c.iter().all(|&m| m == c[0]) { out(format!("stack {} {ax}", list(&items))); out(format!("stack {} 0", list(&items))); }
+                let ops: &[&str] = match ax { 0 => &["vstack", "row_stack"], 1 => &["hstack", "column_stack"], 2 => &["dstack"], _ => &[] };
+                for op in ops { if *op == "column_stack" && tpl.len() > 2 { continue; } out(format!("{op} {}", list(&items))); }
+                if c.len() == 2 { out(format!("split_concat {} {} {ax}", tag(&items[0].0), 1 + c[1])); }
+            }
+        }
+    }
+    // 3. value classes for the f64 / f32 / u8 / bool images: arrays holding the zero tag (-0.0, 0u8, false) in most positions
+    {
+        let mut vs = shapes(1, 3, 1, 2); vs.extend([vec![3], vec![4], vec![2, 3], vec![3, 2], vec![3, 1, 2], vec![2, 3, 4], vec![2, 1, 8, 8], vec![8, 9], vec![5, 1]]);
+        for s in &vs {
+            let nd = s.len(); let z = |t: &[usize], j: i64| zeros_arr(t, j);
+            for ax in 0..nd {
+                let mut t = s.clone(); t[ax] += 1;
+                out(format!("concatenate {};{};{} {ax}", z(s, 0), z(&t, 1), z(s, 2))); out(format!("append {} {} {ax}", z(s, 0), z(&t, 1))); out(format!("append {} {} {ax}", z(&t, 1), z(s, 0)));
+                out(format!("stack {};{} {ax}", z(s, 0), z(s, 1)));
+                for p in [1, 2, 3] { out(format!("array_split {} {p} {ax}", z(&t, 0))); out(format!("split {} {p} {ax}", z(&t, 0))); out(format!("split_concat {} {p} {ax}", z(&t, 0))); }
+                out(format!("split_axis {} {ax}", z(s, 0)));
+            }
+            for op in ["vstack", "hstack", "dstack", "column_stack", "row_stack"] { out(format!("{op} {};{}", z(s, 0), z(s, 1))); out(format!("{op} {}", z(s, 0))); out(format!("{op} {};{};{}", z(s, 2), z(s, 0), z(s, 1))); }
+            out(format!("concatenate {};{} none", z(s, 0), z(s, 1))); out(format!("append {} {} none", z(s, 0), z(&[2], 1)));
+            for p in [1, 2] { out(format!("hsplit {} {p}", z(s, 0))); out(format!("vsplit {} {p}", z(s, 0))); out(format!("dsplit {} {p}", z(s, 0))); }
+            // column_stack: vectors as single columns next to matrices with that many rows
+            let r = s[0];
+            out(format!("column_stack {};{};{}", z(&[r], 0), z(&[r, 2], 1), z(&[r], 2))); out(format!("column_stack {};{}", z(&[r, 3], 0), z(&[r], 1))); out(format!("column_stack {};{}", z(&[r, 1], 1), z(&[r, 1], 0)));
+        }
+    }
+    // 4./5. both receivers (append, the six splitting methods), the repeated call and the element types are applied by `exec` to EVERY case
+    // seeded random shapes with axis lengths up to 17, rank 2..4, at most ~1500 elements
+    for _ in 0..(if thorough { 1500 } else { 150 }) {
+        let nd = 2 + rng.below(3); let mut s: Vec<usize> = (0..nd).map(|_| 1 + rng.below(17)).collect();
+        while s.iter().product::<usize>() > 1500 { let p = rng.below(nd); s[p] = 1 + s[p] / 2; }
+        let ax = rng.below(nd); let a = tag(&s);
+        match rng.below(4) {
+            0 => { let k = 2 + rng.below(2); let items: Vec<(Vec<usize>, i64)> = (0..k).map(|j| { let mut t = s.clone(); if j > 0 { t[ax] = 1 + rng.below(4); } (t, 10000 * j as i64) }).collect(); out(format!("concatenate {} {ax}", list(&items))); }
+            1 => { let mut t = s.clone(); t[ax] = 1 + rng.below(5); out(format!("append {a} {} {ax}", tag_off(&t, 10000))); out(format!("append {} {a} {ax}", tag_off(&t, 10000))); }
+            2 => { let p = 1 + rng.below(s[ax] + 2); out(format!("array_split {a} {p} {ax}")); out(format!("split {a} {p} {ax}")); }
+            _ => { let p = 1 + rng.below(s[ax] + 2); out(format!("split_concat {a} {p} {ax}")); }
+        }
+    }
 }
+
+
+// ---------------------------------------------------------------- executor
+
+fn elems_of(s: &str) -> usize { if s == "-" { 0 } else { s.split(';').map(|a| parse_arr_raw(a).0.iter().product::<usize>()).sum() } }
 
 fn exec(op: &str, args: &[&str], expected: &str) -> Option<Verdict> {
     let ax_opt = |s: &str| -> Option<usize> { parse_opt(s) };
+    let src = *args.first()?;
+    // the four further element types: at most 600 input elements, one case line in three
+    let more = { let n = elems_of(src) + if op == "append" { elems_of(args[1]) } else { 0 }; n <= 600 && args.iter().map(|a| a.len()).sum::<usize>() % 3 == 0 };
     let obs = match op {
-        "append" => { let (a, v) = (parse_arr_i64(args[0]), parse_arr_i64(args[1])); let ax = ax_opt(args[2]); guarded(|| res_arr(&a.append(&v, ax))) }
-        "concatenate" => { let l = parse_arr_list_i64(args[0]); let ax = ax_opt(args[1]); guarded(|| res_arr(&Array::concatenate(l.clone(), ax))) }
-        "stack" => { let l = parse_arr_list_i64(args[0]); let ax = ax_opt(args[1]);
+        "append" => { let ax = ax_opt(args[2]);
+            sweep_arr!(more, |T| { let (a, v) = (arr_of::<T>(src), arr_of::<T>(args[1])); rx(|| a.append(&v, ax), || Ok(a.clone()).append(&v, ax)) }) }
+        "concatenate" => { let ax = ax_opt(args[1]); sweep_arr!(more, |T| { let l = list_of::<T>(src); rep(|| Array::concatenate(l.clone(), ax)) }) }
+        "stack" => { let ax = ax_opt(args[1]);
             // a new LAST axis (axis == rank) is refused by the code; the statement does not say which positions must be accepted: open
-            let o = guarded(|| res_arr(&Array::stack(l.clone(), ax)));
-            if let (Some(ax), Some(first)) = (ax, l.first()) { if ax == first.ndim().unwrap() && o != expected { return Some(Verdict::Open(o)); } }
+            let o = sweep_arr!(more, |T| { let l = list_of::<T>(src); rep(|| Array::stack(l.clone(), ax)) });
+            if let (Some(ax), Some(first)) = (ax, parse_arr_list_i64(src).first()) { if ax == first.ndim().unwrap() && o != expected { return Some(Verdict::Open(o)); } }
             o }
-        "vstack" => { let l = parse_arr_list_i64(args[0]); guarded(|| res_arr(&Array::vstack(l.clone()))) }
-        "row_stack" => { let l = parse_arr_list_i64(args[0]); guarded(|| res_arr(&Array::row_stack(l.clone()))) }
-        "hstack" => { let l = parse_arr_list_i64(args[0]); guarded(|| res_arr(&Array::hstack(l.clone()))) }
-        "dstack" => { let l = parse_arr_list_i64(args[0]); guarded(|| res_arr(&Array::dstack(l.clone()))) }
-        "column_stack" => { let l = parse_arr_list_i64(args[0]); guarded(|| res_arr(&Array::column_stack(l.clone()))) }
-        "array_split" => { let a = parse_arr_i64(args[0]); let p: usize = args[1].parse().ok()?; let ax = ax_opt(args[2]); guarded(|| res_arr_list(&a.array_split(p, ax))) }
-        "split" => { let a = parse_arr_i64(args[0]); let p: usize = args[1].parse().ok()?; let ax = ax_opt(args[2]); guarded(|| res_arr_list(&a.split(p, ax))) }
-        "split_axis" => { let a = parse_arr_i64(args[0]); let ax: usize = args[1].parse().ok()?; guarded(|| res_arr_list(&a.split_axis(ax))) }
-        "hsplit" => { let a = parse_arr_i64(args[0]); let p: usize = args[1].parse().ok()?; guarded(|| res_arr_list(&a.hsplit(p))) }
-        "vsplit" => { let a = parse_arr_i64(args[0]); let p: usize = args[1].parse().ok()?; guarded(|| res_arr_list(&a.vsplit(p))) }
-        "dsplit" => { let a = parse_arr_i64(args[0]); let p: usize = args[1].parse().ok()?; guarded(|| res_arr_list(&a.dsplit(p))) }
-        "split_concat" => { let a = parse_arr_i64(args[0]); let p: usize = args[1].parse().ok()?; let ax: usize = args[2].parse().ok()?;
-            guarded(|| match a.array_split(p, Some(ax)) { Ok(ps) => res_arr(&Array::concatenate(ps, Some(ax))), Err(e) => format!("err {}", err_name(&e)) }) }
+        "vstack" => sweep_arr!(more, |T| { let l = list_of::<T>(src); rep(|| Array::vstack(l.clone())) }),
+        "row_stack" => sweep_arr!(more, |T| { let l = list_of::<T>(src); rep(|| Array::row_stack(l.clone())) }),
+        "hstack" => sweep_arr!(more, |T| { let l = list_of::<T>(src); rep(|| Array::hstack(l.clone())) }),
+        "dstack" => sweep_arr!(more, |T| { let l = list_of::<T>(src); rep(|| Array::dstack(l.clone())) }),
+        "column_stack" => sweep_arr!(more, |T| { let l = list_of::<T>(src); rep(|| Array::column_stack(l.clone())) }),
+        "array_split" => { let p: usize = args[1].parse().ok()?; let ax = ax_opt(args[2]);
+            sweep_list!(more, |T| { let a = arr_of::<T>(src); rx_list(|| a.array_split(p, ax), || Ok(a.clone()).array_split(p, ax)) }) }
+        "split" => { let p: usize = args[1].parse().ok()?; let ax = ax_opt(args[2]);
+            sweep_list!(more, |T| { let a = arr_of::<T>(src); rx_list(|| ArraySplit::split(&a, p, ax), || ArraySplit::split(&Ok(a.clone()), p, ax)) }) }
+        "split_axis" => { let ax: usize = args[1].parse().ok()?;
+            sweep_list!(more, |T| { let a = arr_of::<T>(src); rx_list(|| a.split_axis(ax), || Ok(a.clone()).split_axis(ax)) }) }
+        "hsplit" => { let p: usize = args[1].parse().ok()?; sweep_list!(more, |T| { let a = arr_of::<T>(src); rx_list(|| a.hsplit(p), || Ok(a.clone()).hsplit(p)) }) }
+        "vsplit" => { let p: usize = args[1].parse().ok()?; sweep_list!(more, |T| { let a = arr_of::<T>(src); rx_list(|| a.vsplit(p), || Ok(a.clone()).vsplit(p)) }) }
+        "dsplit" => { let p: usize = args[1].parse().ok()?; sweep_list!(more, |T| { let a = arr_of::<T>(src); rx_list(|| a.dsplit(p), || Ok(a.clone()).dsplit(p)) }) }
+        // round trip; the split goes through the Result receiver here
+        "split_concat" => { let p: usize = args[1].parse().ok()?; let ax: usize = args[2].parse().ok()?;
+            sweep_arr!(more, |T| { let a = arr_of::<T>(src); rep(|| match Ok(a.clone()).array_split(p, Some(ax)) { Ok(ps) => Array::concatenate(ps, Some(ax)), Err(e) => Err(e) }) }) }
         _ => return None,
     };
     Some(compare_default(obs, expected))
@@ -148,5 +444,5 @@ fn nontrivial(op: &str, args: &[&str]) -> bool {
 
 fn main() {
     harness_main(Spec { prop: "C11", gen, exec, nontrivial, hang_secs: 20,
-        rule: "every shape rank<=4 len<=3 (+ lengths 4-7): array_split / split / split-then-concatenate for EVERY axis and every part count 1..len+2 (+0, axis none, axis out of range), split_axis, hsplit/vsplit/dsplit 0..4; concatenate/append of 2-4 arrays with seeded lengths 1..3 along EVERY axis (+ off-axis mismatch, rank mismatch, flat form), stack on every axis (+none, rank, rank+1), the five conveniences on equal shapes / shapes differing along the stacking axis / off-axis mismatches / mixed ranks / empty lists; off-axis mismatches that keep the product of the other axes (permuted / regrouped off-axis lengths, rank 3-4, every axis, both orders, first and later pair) for append/concatenate/vstack/row_stack/hstack/column_stack/dstack, permuted shapes for stack and column_stack - all must be refused; zero-size shapes ([0],[2,0],[0,2],[0,0],[2,0,3],[2,3,0],[0,2,2]): append/concatenate with partners of length 0..2 on every axis, stack, the five conveniences, every split; seeded random rank<=5. Tag arrays. non-trivial: >=2 parts on rank>=2, or >=2 arrays joined" });
+        rule: "every shape rank<=4 len<=3 (+ lengths 4-7): array_split / split / split-then-concatenate for EVERY axis and every part count 1..len+2 (+0, axis none, axis out of range), split_axis, hsplit/vsplit/dsplit 0..4; concatenate/append of 2-4 arrays with seeded lengths 1..3 along EVERY axis (+ off-axis mismatch, rank mismatch, flat form), stack on every axis (+none, rank, rank+1), the five conveniences on equal shapes / shapes differing along the stacking axis / off-axis mismatches / mixed ranks / empty lists; off-axis mismatches that keep the product of the other axes (permuted / regrouped off-axis lengths, rank 3-4, every axis, both orders, first and later pair) for append/concatenate/vstack/row_stack/hstack/column_stack/dstack, permuted shapes for stack and column_stack - all must be refused; zero-size shapes (lib zero_shapes + [2,0,3],[0,2,2],[3,0,2],[2,2,0,2]): append/concatenate with partners of length 0..2 on every axis, stack, the five conveniences, every split; seeded random rank<=5. Robustness streams: sizes (lib big_shapes + shapes at/around 256, 1024, 4096 elements in rank 2-4, up to [70,70]/[16,20,16]/[8,8,8,8], rank 8): every split op on every axis with part counts 2,3,4,5,7,len-1,len,len+1,2len and the round trip (>= 2000 elements: one uneven part count per axis + round trip + parts beyond the length), joining the big array with 1-2 partners of length 1..3 on every axis, stack and the conveniences; joining along an axis followed by a long contiguous run (23 templates, trailing product 31..1030, outer extent 1..17) x 12 combinations of equal/unequal/zero lengths for 2 and 3 inputs through append (both orders), concatenate, stack, the convenience of that axis and the round trip; arrays holding the zero tag in most positions (f64/f32 image -0.0, bit-wise) through every op incl. column_stack of vectors and matrices; seeded random rank 2-4 with axis lengths <= 17. EVERY case runs on Array<i64> (the compared answer), on the u8 and f64 (tag 0 = -0.0, bit-wise) images, one small case in three also on i8 / bool / String / f32; append and the six splitting methods on the plain receiver AND on Ok(array) through the Result-receiver impls (ArrayJoining has associated functions only); the i64 call twice; any divergence fails the case. Tag arrays. non-trivial: >=2 parts on rank>=2, or >=2 arrays joined" });
 }
